@@ -13,6 +13,20 @@ NAMES = {"W1SendSync": "Code, Variable, Function, Type, Mut, Interpreter<'static
          "W4ExecIsolated": "Code::exec(&self) has no interpreter parameter; Code::parse takes &Interpreter"}
 
 
+def _cap(d, limit):
+    """every distinct tree leaves its own artifacts in the shared target dir: start afresh once it is larger than `limit` bytes"""
+    total = 0
+    for root, _, files in os.walk(d):
+        for f in files:
+            try:
+                total += os.path.getsize(os.path.join(root, f))
+            except OSError:
+                pass
+        if total > limit:
+            shutil.rmtree(d, ignore_errors=True)
+            return
+
+
 def run(ctx, only=None):
     res = RuleResult("R-WITNESS", "compile-pass / compile_fail witnesses decided by rustc on the current tree")
     src = os.path.join(extract.VERIF, "witness")
@@ -25,7 +39,9 @@ def run(ctx, only=None):
         toml = open(os.path.join(src, "Cargo.toml.in")).read().replace("@REPO@", extract.REPO)
         open(os.path.join(work, "Cargo.toml"), "w").write(toml)
         shutil.copy(os.path.join(extract.REPO, "Cargo.lock"), os.path.join(work, "Cargo.lock"))
-        env = dict(os.environ, CARGO_TARGET_DIR=os.path.join(extract.CACHE, "target-witness"), CARGO_NET_OFFLINE="true")
+        tgt = os.path.join(extract.CACHE, "target-witness")
+        _cap(tgt, 3 << 30)
+        env = dict(os.environ, CARGO_TARGET_DIR=tgt, CARGO_NET_OFFLINE="true")
         env.pop("RUSTC_WORKSPACE_WRAPPER", None)
         r = subprocess.run(["cargo", "+nightly", "test", "--doc", "--offline", "--", "--test-threads", "8"], cwd=work, env=env,
                            stdout=subprocess.PIPE, stderr=subprocess.STDOUT, text=True)
